@@ -1,4 +1,5 @@
 import YgmVerif.Model.Ser
+import YgmVerif.Lemmas.Out
 /-! Helper lemmas for the serialize / deserialize model (`YgmVerif.Ser`). -/
 namespace YgmVerif.Ser
 
